@@ -50,6 +50,7 @@ def plan(tier):
     for fn in ('reweight', 'reweight_all', 'obs_method', 'corr_reweight', 'list'):
         for sub in SUBSETS:
             p.append(('rw:%s:%s' % (fn, sub), 12 * m))
+    p.append(('rw_special', 30 * m))
     p.append(('correlate', 60 * m))
     p.append(('corr_correlate', 30 * m))
     p.append(('merge', 60 * m))
@@ -145,6 +146,35 @@ def case_reweight(ctx, rng, fn, how):
     ctx.equal(snap(w)['chains'].keys(), wtab.keys(), 'reweight:weight-modified')
     ctx.sample({'fn': fn, 'subset': how, 'all_configs': allc, 'weight_chains': {n: len(d) for n, d in wtab.items()},
                 'obs_chains': [{n: len(d) for n, d in t.items()} for t in otabs]})
+
+
+def case_reweight_special(ctx, rng):
+    """Checklist items 4 and 6: the same object several times in the list / as weight and observable;
+    weights of very small or large magnitude (reweighting factors often are): the ratio is invariant."""
+    pe = PE
+    wtab = weight_table(rng, ctx.tier)
+    scale = float(rng.choice([1e-30, 1e-8, 1.0, 1e8, 1e30]))
+    wtab = {n: {c: v * scale for c, v in d.items()} for n, d in wtab.items()}
+    w = gen.table_to_obs(pe, wtab)
+    how = str(rng.choice(SUBSETS))
+    otab = obs_on(rng, wtab, how)
+    o = gen.table_to_obs(pe, otab)
+    allc = bool(rng.integers(0, 2))
+    ctx.count('reweight_cases')
+    ctx.cell('reweight', 'special', how, 'scale%g' % scale)
+    res = pe.reweight(w, [o, o, o], all_configs=allc)
+    ref, sc = expected_reweight(wtab, otab, allc)
+    ctx.equal(len(res), 3, 'reweight:result-count')
+    for r in res:
+        compare_obs(ctx, r, ref, 'reweight:same-object-in-list', scale=sc, rtol=1e-11, what='same object three times, weight scale %g' % scale, rv_tol=1e-11)
+    # the weight itself as observable: <w w>/<w>
+    r = pe.reweight(w, [w])[0]
+    ref2, sc2 = expected_reweight(wtab, wtab, False)
+    compare_obs(ctx, r, ref2, 'reweight:weight-as-observable', scale=sc2, rtol=1e-11, what='reweight(w, [w]) scale %g' % scale, rv_tol=1e-11)
+    c = pe.correlate(o, o)
+    compare_obs(ctx, c, dense.from_table({n: {k: v * v for k, v in d.items()} for n, d in otab.items()}), 'correlate:same-object', rtol=1e-12,
+                what='correlate(o, o)', rv_tol=1e-12)
+    ctx.nontrivial.add(digest('rwspecial', scale, sorted((n, sorted(d.items())) for n, d in otab.items())))
 
 
 def case_correlate(ctx, rng, via_corr):
@@ -362,6 +392,8 @@ def run_case(ctx, kind, idx, rng):
     k = kind.split(':')
     if k[0] == 'rw':
         case_reweight(ctx, rng, k[1], k[2])
+    elif kind == 'rw_special':
+        case_reweight_special(ctx, rng)
     elif kind == 'correlate':
         case_correlate(ctx, rng, False)
     elif kind == 'corr_correlate':
